@@ -97,9 +97,16 @@ class CFRank:
             K = orientation.canonical_divisor()
             if (K - D).get_total_degree() < D.get_total_degree():
                 self.log(
-                    "Optimized mode: (K-D) has lower degree than D. Running next step on (K-D)."
+                    "Optimized mode: (K-D) has lower degree than D. Computing r(K-D) and applying "
+                    "the Riemann-Roch theorem: r(D) = r(K-D) + deg(D) + 1 - g."
                 )
-                self._divisor = K - D
+                # r(K-D) is -1 when K-D is unwinnable, so it must go through the full calculation
+                # (winnability gate included); its value is then corrected by Riemann-Roch.
+                rank_of_dual = CFRank()._calculate_rank(K - D, optimized=False).rank
+                self._rank_value = (
+                    rank_of_dual + D.get_total_degree() + 1 - graph.get_genus()
+                )
+                return self
             else:
                 self.log(
                     "Optimized mode: (K-D) has degree >= that of D. Running next step on D itself."
